@@ -152,3 +152,160 @@ def translate_function(name, lean_name, ret, params, body):
     if not returned:
         raise Unsupported("no ret")
     return "def %s %s : M (BitVec %d) := do\n%s\n" % (lean_name, " ".join(sig), rw, "\n".join(out))
+
+
+# --------------------------------------------------------------------------- index-check subset (C03)
+SLICE_T = '%"github.com/goplus/llgo/runtime/internal/runtime.Slice"'
+STRING_T = '%"github.com/goplus/llgo/runtime/internal/runtime.String"'
+
+
+def translate_index_function(name, lean_name, ret, params, body, hdr_fields):
+    """Functions of the form `return <indexable>[i]`.  Memory is abstracted: the slice/string header fields are the
+    Lean parameters `len` (and `cap`), pointers are opaque tokens, and the function's result is the INDEX handed to the
+    final getelementptr whose loaded value is returned.  hdr_fields: names of header params to expose, e.g. ["len"]."""
+    env = {}        # reg -> (lean expr, width)   integers
+    ptrs = {}       # reg -> token                 opaque pointers
+    structs = {}    # reg -> {field index: reg-like value}   loaded aggregate values
+    cells = {}      # alloca reg -> {field: value}          local aggregate being assembled
+    fieldptr = {}   # reg -> (alloca reg, field)
+    geps = {}       # reg -> (base token, index expr, width)
+    loads = {}      # reg -> gep reg
+    sig = ["(len : BitVec 64)"] if "len" in hdr_fields else []
+    k = 0
+    pending_string = None
+    for (ty, reg) in params:
+        if ty.startswith("ptr byval(" + SLICE_T):
+            structs["byval:" + reg] = {0: ("ptr", "data"), 1: ("int", "(some len)", 64), 2: ("int", "(some cap)", 64)}
+            ptrs[reg] = "byval:" + reg
+        elif ty == "ptr":
+            ptrs[reg] = "p" + reg[1:]
+        else:
+            w = ity(ty)
+            env[reg] = ("(some a%d)" % k, w)
+            sig.append("(a%d : BitVec %d)" % (k, w))
+            k += 1
+    string_len_reg = None
+    if hdr_fields == ["strlen"]:
+        # (ptr %0, i64 %1, <index>): %1 is the string length -> rename the first integer param to `len`
+        first_int = [reg for (ty, reg) in params if ty != "ptr" and not ty.startswith("ptr ")][0]
+        env[first_int] = ("(some len)", 64)
+        sig = ["(len : BitVec 64)"] + ["(a%d : BitVec %d)" % (j, w) for j, (e, w) in enumerate([]) ]
+        sig = ["(len : BitVec 64)"]
+        k = 0
+        for (ty, reg) in params:
+            if ty == "ptr" or ty.startswith("ptr ") or reg == first_int:
+                continue
+            w = ity(ty)
+            env[reg] = ("(some a%d)" % k, w)
+            sig.append("(a%d : BitVec %d)" % (k, w))
+            k += 1
+
+    def opnd(tok, w):
+        tok = tok.rstrip(",")
+        if tok in env:
+            e, w2 = env[tok]
+            if w2 != w:
+                raise Unsupported("width mismatch on " + tok)
+            return e
+        if re.fullmatch(r"-?\d+", tok):
+            return "(some (BitVec.ofInt %d (%s)))" % (w, tok)
+        if tok == "true":
+            return "(some (BitVec.ofInt 1 1))"
+        if tok == "false":
+            return "(some (BitVec.ofInt 1 0))"
+        raise Unsupported("operand " + tok)
+
+    out = []
+    returned = False
+    blocks = 0
+    for line in body:
+        s = line.split(";")[0].strip()
+        if not s:
+            continue
+        if s.endswith(":"):
+            blocks += 1
+            if blocks > 1:
+                raise Unsupported("more than one basic block")
+            continue
+        if returned:
+            raise Unsupported("instruction after ret")
+        m = re.fullmatch(r"(%\d+) = alloca (\{ ptr, i64 \}|@T@), align \d+".replace("@T@", re.escape(STRING_T)), s)
+        if m:
+            cells[m.group(1)] = {}
+            continue
+        m = re.fullmatch(r"(%\d+) = getelementptr inbounds \{ ptr, i64 \}, ptr (%\d+), i32 0, i32 (\d+)", s)
+        if m and m.group(2) in cells:
+            fieldptr[m.group(1)] = (m.group(2), int(m.group(3)))
+            continue
+        m = re.fullmatch(r"store (ptr|i64) (%\d+), ptr (%\d+), align \d+", s)
+        if m and m.group(3) in fieldptr:
+            cell, f = fieldptr[m.group(3)]
+            if m.group(1) == "ptr":
+                cells[cell][f] = ("ptr", ptrs.get(m.group(2), "p?"))
+            else:
+                cells[cell][f] = ("int",) + env[m.group(2)]
+            continue
+        m = re.fullmatch(r"(%\d+) = load (@S@|@T@), ptr (%\d+), align \d+".replace("@S@", re.escape(SLICE_T)).replace("@T@", re.escape(STRING_T)), s)
+        if m:
+            src = m.group(3)
+            if src in cells:
+                structs[m.group(1)] = dict(cells[src])
+            elif src in ptrs and ptrs[src].startswith("byval:"):
+                structs[m.group(1)] = structs[ptrs[src]]
+            else:
+                raise Unsupported("aggregate load from unknown pointer: " + s)
+            continue
+        m = re.fullmatch(r"(%\d+) = extractvalue (?:@S@|@T@) (%\d+), (\d+)".replace("@S@", re.escape(SLICE_T)).replace("@T@", re.escape(STRING_T)), s)
+        if m:
+            fv = structs[m.group(2)].get(int(m.group(3)))
+            if fv is None:
+                raise Unsupported("extractvalue of unset field: " + s)
+            if fv[0] == "ptr":
+                ptrs[m.group(1)] = fv[1]
+            else:
+                env[m.group(1)] = (fv[1], fv[2])
+            continue
+        m = re.fullmatch(r"(%\d+) = getelementptr inbounds (i\d+), ptr (%\d+), (i\d+) (\S+)", s)
+        if m:
+            if m.group(3) not in ptrs:
+                raise Unsupported("gep on unknown pointer: " + s)
+            w = ity(m.group(4))
+            geps[m.group(1)] = (ptrs[m.group(3)], opnd(m.group(5), w), w)
+            continue
+        m = re.fullmatch(r"(%\d+) = load (i\d+), ptr (%\d+), align \d+", s)
+        if m and m.group(3) in geps:
+            loads[m.group(1)] = m.group(3)
+            continue
+        m = re.fullmatch(r"(%\d+) = (or|and) i1 (\S+), (\S+)", s)
+        if m:
+            env[m.group(1)] = ("v" + m.group(1)[1:], 1)
+            out.append("  let v%s := %s %s %s" % (m.group(1)[1:], "LLVM." + m.group(2), opnd(m.group(3), 1), opnd(m.group(4), 1)))
+            continue
+        m = re.fullmatch(r"(%\d+) = icmp (\w+) (i\d+) (\S+), (\S+)", s)
+        if m:
+            w = ity(m.group(3))
+            env[m.group(1)] = ("v" + m.group(1)[1:], 1)
+            out.append("  let v%s := icmp .%s %s %s" % (m.group(1)[1:], m.group(2), opnd(m.group(4), w), opnd(m.group(5), w)))
+            continue
+        m = re.fullmatch(r"(%\d+) = (trunc|zext|sext) (i\d+) (\S+) to (i\d+)", s)
+        if m:
+            w1, w2 = ity(m.group(3)), ity(m.group(5))
+            env[m.group(1)] = ("v" + m.group(1)[1:], w2)
+            out.append("  let v%s := %s %d %s" % (m.group(1)[1:], CASTS[m.group(2)], w2, opnd(m.group(4), w1)))
+            continue
+        m = re.fullmatch(r'call void @"([^"]+)"\(i1 (\S+)\)', s)
+        if m and m.group(1) in ASSERTS:
+            out.append("  assert %s %s" % (ASSERTS[m.group(1)], opnd(m.group(2), 1)))
+            continue
+        m = re.fullmatch(r"ret (i\d+) (%\d+)", s)
+        if m and m.group(2) in loads:
+            base, idx, w = geps[loads[m.group(2)]]
+            if w != 64:
+                raise Unsupported("gep index is not i64")
+            out.append("  ret %s" % idx)
+            returned = True
+            continue
+        raise Unsupported("instruction: " + s)
+    if not returned:
+        raise Unsupported("no ret of a loaded element")
+    return "def %s %s : M (BitVec 64) := do\n%s\n" % (lean_name, " ".join(sig), "\n".join(out))
